@@ -99,6 +99,11 @@ func customC14(r *Run) ([]Crash, error) {
 		var chosen []shapes.Variant
 		if r.Thorough() {
 			chosen = append(append(chosen, ex...), em...)
+			if len(groups)%12 == 0 {
+				// every form at every position for one base in twelve
+				chosen = append(chosen, shapes.ExcludedAllForms(f, o)...)
+				r.M.Counters["bases_with_every_form_at_every_position"]++
+			}
 		} else {
 			// two single insertions (rotating), the all-positions variant, two embeddings (rotating)
 			singles := ex[:len(ex)-1]
